@@ -689,3 +689,30 @@ func mentions(e contract.Expr, name string) bool {
 	}
 	return false
 }
+
+// hasQuantExpr: the contract expression contains a quantifier (syntactically).
+func hasQuantExpr(e contract.Expr) bool {
+	switch n := e.(type) {
+	case *contract.Unary:
+		return hasQuantExpr(n.X)
+	case *contract.Binary:
+		return hasQuantExpr(n.X) || hasQuantExpr(n.Y)
+	case *contract.Cond:
+		return hasQuantExpr(n.C) || hasQuantExpr(n.A) || hasQuantExpr(n.B)
+	case *contract.Call:
+		for _, a := range n.Args {
+			if hasQuantExpr(a) {
+				return true
+			}
+		}
+	case *contract.Index:
+		return hasQuantExpr(n.X) || hasQuantExpr(n.I)
+	case *contract.Sel:
+		return hasQuantExpr(n.X)
+	case *contract.Quant:
+		return true
+	case *contract.Old:
+		return hasQuantExpr(n.X)
+	}
+	return false
+}
